@@ -651,6 +651,12 @@ class World:
         if rec is None or rec.res is None:
             return
         pid = getattr(rec.res, '_worker_pid', None)
+        if not isinstance(pid, int) and hasattr(rec.res, 'worker_pids'):
+            # a map / imap job: the worker that holds one of its unfinished parts right now
+            try:
+                pid = next(iter(sorted(rec.res.worker_pids())), None)
+            except Exception:      # noqa
+                pid = None
         if isinstance(pid, int):
             self.k.record('user-terminate-job', uid, pid)
             if sig is None:
